@@ -98,7 +98,10 @@ def build_harness():
 # TLC
 
 def tlc_cmd(module, cfg, metadir, workers, extra_jvm=(), extra=()):
-    jvm = ["java", "-Xss1g", "-DTLA-Library=" + SPEC + ":" + os.path.join(SPEC, "mc") + ":" + os.path.join(SPEC, "trace")]
+    # (TLC unpacks the standard modules into java.io.tmpdir on every run: keep that inside the run's own directory,
+    #  which is removed afterwards, instead of littering /tmp)
+    jvm = ["java", "-Xss1g", "-Djava.io.tmpdir=" + metadir,
+           "-DTLA-Library=" + SPEC + ":" + os.path.join(SPEC, "mc") + ":" + os.path.join(SPEC, "trace")]
     jvm += list(extra_jvm)
     return jvm + ["-cp", TLA_CP, "tlc2.TLC", "-workers", str(workers), "-metadir", metadir, "-cleanup",
                   "-noGenerateSpecTE", "-config", cfg] + list(extra) + [module]
@@ -171,7 +174,7 @@ def _run_mc_models(names, workdir, tier):
             logf = os.path.join(workdir, "mc_" + name + ".log")
             cmd = ["apalache-mc", "check"] + m["apalache"] + ["--out-dir=" + os.path.join(md, "out"), os.path.join(SPEC, m["module"])]
             f = open(logf, "w")
-            p = subprocess.Popen(cmd, stdout=f, stderr=subprocess.STDOUT, cwd=md)
+            p = subprocess.Popen(cmd, stdout=f, stderr=subprocess.STDOUT, cwd=md, env=dict(os.environ, TMPDIR=md))
             procs.append((name, m, p, f, logf, time.time()))
             continue
         cfg = os.path.join(SPEC, "mc", m["cfg"])
